@@ -180,6 +180,7 @@ class Cases:
         self.ctx, self.prefix, self.imports = ctx, prefix, imports
         self.per_file_cells, self.per_file_cases = per_file_cells, per_file_cases
         self.shared = list(shared)      # (text, ncells)
+        self.codes = False              # True: cases are `nat` codes, 0 = fine; failing payloads get ["code"]
         self.files = []
         self._new()
 
@@ -231,9 +232,15 @@ class Cases:
             body = ";\n  ".join(e for e, _ in f["cases"])
             table = ("Definition lit_table : list cell :=\n  [" + ";\n   ".join(f["lit_terms"]) + "].\n"
                      f"Definition L (i : nat) : cell := nth i lit_table {self.DUMMY}.\n")
-            txt = (ct.COQ_HEADER + self.imports + "\n" + table + "\n".join(f["defs"]) + "\n"
-                   + "Definition cases : list bool := [\n  " + body + "].\n"
-                   + "Eval vm_compute in failing cases.\n")
+            if self.codes:
+                tail = ("Definition cases : list nat := [\n  " + body + "].\n"
+                        "Fixpoint nz (i : nat) (l : list nat) : list (nat * nat) :=\n"
+                        "  match l with [] => [] | O :: r => nz (S i) r | c :: r => (i, c) :: nz (S i) r end.\n"
+                        "Eval vm_compute in nz O cases.\n")
+            else:
+                tail = ("Definition cases : list bool := [\n  " + body + "].\n"
+                        "Eval vm_compute in failing cases.\n")
+            txt = ct.COQ_HEADER + self.imports + "\n" + table + "\n".join(f["defs"]) + "\n" + tail
             p = self.ctx.build / f"{self.prefix}_{i}.v"
             p.write_text(txt)
             paths.append((p, f))
@@ -247,6 +254,14 @@ class Cases:
             vals = parse_coq_eval(out)
             if not vals:
                 errs.append((p.name, "no Eval output: " + out[-300:]))
+                continue
+            if self.codes:
+                import re
+
+                for i, c in re.findall(r"\((\d+)(?:%nat)?\s*,\s*(\d+)(?:%nat)?\)", vals[-1]):
+                    pl = dict(f["cases"][int(i)][1])
+                    pl["code"] = int(c)
+                    bad.append(pl)
                 continue
             idx = [int(x) for x in vals[-1].strip("[]").replace("%nat", "").split(";") if x.strip()]
             for i in idx:
